@@ -186,11 +186,19 @@ fn world_plan(ctx: &mut Ctx, rng: &mut SRng) -> Option<Plan> {
 /// visible" and "the notarization certificate for X arrives (as a certificate message, or as the last
 /// individual votes)" is produced; the slot is the first of the run or the first of the next window.
 fn rival_plan(rng: &mut SRng) -> Plan {
+    // variant "certificate before block": the notarization certificate for X is formed without the node under
+    // test (a + z >= 60 %) and reaches it before block X does, so its notar and final votes are cast in one
+    // go when the block arrives; the 40 % for Y become visible only afterwards
+    let cert_first = rng.random_bool(0.3);
     let z = rng.random_range(1..=19u64);
     let c = rng.random_range(40 - z.min(39)..=40).max(2);
     let ua = 100 - z - c;
     // neither X-group node may reach safe-to-skip on its own stake (40 %) before the certificate arrives
-    let u = rng.random_range(ua.saturating_sub(39).max(1)..=39.min(ua - 1));
+    let mut u = rng.random_range(ua.saturating_sub(39).max(1)..=39.min(ua - 1));
+    if cert_first {
+        // a alone carries the certificate together with z
+        u = rng.random_range(1..=(ua + z).saturating_sub(60).max(1).min(ua - 1));
+    }
     let a = ua - u;
     let c1 = rng.random_range(1..c);
     let c2 = c - c1;
@@ -234,6 +242,28 @@ fn rival_plan(rng: &mut SRng) -> Plan {
     let x = (slot, lbl(rng));
     let y = (slot, lbl(rng));
     sched.push((t, Input::FirstShred(slot)));
+    if cert_first && (a + z) * 5 >= 300 {
+        let mut signers = vec![iz, ia];
+        signers.sort_unstable();
+        sched.push((t + 1, Input::Cert(CK::Notar, slot, Some(x.1), signers, vec![])));
+        sched.push((t + 10, Input::Block(x, parent)));
+        sched.push((t + 12 + rng.random_range(0..20), Input::Block(y, parent)));
+        let mut yv = vec![ic1, ic2, iz];
+        yv.shuffle(rng);
+        for (k, i) in yv.into_iter().enumerate() {
+            sched.push((t + 50 + k as u64, Input::Vote(MVote { signer: i, kind: VK::Notar, slot, hash: Some(y.1) })));
+        }
+        if rng.random_bool(0.5) {
+            // ... or the others time out instead: skip votes making safe-to-skip true
+            for (k, i) in [ic1, ic2].into_iter().enumerate() {
+                sched.push((t + 70 + k as u64, Input::Vote(MVote { signer: i, kind: VK::Skip, slot: slot + 1, hash: None })));
+            }
+        }
+        if rng.random_bool(0.3) {
+            sched.push((t + rng.random_range(0..200), Input::Standstill));
+        }
+        return Plan { ep, stakes, family: "rival-thresholds", own: iu, slots: slot + 3, windows: 2, jitter_ms: 0, slot_ms: 400, sched, tag: "directed-rival-cert-before-block" };
+    }
     sched.push((t + 1, Input::Block(x, parent)));
     sched.push((t + 2 + rng.random_range(0..30), Input::Block(y, parent)));
     // the two competing arrivals, in either order
